@@ -188,7 +188,7 @@ class Anatomy:
 
 
 def make_tx(idx, extra_env=None):
-    sjm = idx.func(REL, f"{CLS}.sjm")
+    sjm = idx.func_x(REL, f"{CLS}.sjm")
     env = {}
     tx = Tx(env=env, inline={"self.sjm": sjm})
     tx.post = _recipes
@@ -223,7 +223,7 @@ def _record_store(an, tx, st, cond):
 
 
 def anatomy(idx, name) -> Anatomy:
-    fd = idx.func(REL, f"{CLS}.{name}")
+    fd = idx.func_x(REL, f"{CLS}.{name}")
     tx = make_tx(idx)
     an = Anatomy(name, fd, tx, None)
     ETA, LAM = S("ETA"), S("LAM")
@@ -331,7 +331,7 @@ def history_shape(h):
 def method_term(idx, name, extra_inline=None):
     """Translate a straight-line NonnegMean method (estimator / bet / helper):
     returns (tx, returned Val, stores).  Warn-only / raise-only `if`s are skipped."""
-    fd = idx.func(REL, f"{CLS}.{name}")
+    fd = idx.func_x(REL, f"{CLS}.{name}")
     tx = make_tx(idx)
     wf = idx.module(REL).defs.get("welford_mean_var")
     if extra_inline:
